@@ -64,7 +64,9 @@ def _stage_trace(f) -> list[str]:
                         return (call_name(cn) + "(...)") if isinstance(cn, ast.Call) else " ".join(ast.unparse(cn).split())
                     argt = [_head(a) for a in c.args]
                 if nm == "parse":
-                    argt = argt[:1] and ["<source>.strip()" if ".strip()" in argt[0] else argt[0]] + ["<name>"]
+                    # the two functions obtain the text differently (parameter / read_text); what must agree is the transformation applied to it
+                    _m = re.search(r"\.(strip|rstrip|lstrip)\(\)$", argt[0]) if argt else None
+                    argt = argt[:1] and [f"<source>.{_m.group(1)}()" if _m else "<source>"] + ["<name>"]
                 kws = sorted(f"{k.arg}={'<label>' if k.arg == 'blueprint_label' else norm_c(k.value)}" for k in c.keywords if k.arg)
                 ev.append(f"{recv.split('(')[0]}.{nm}({', '.join(argt + kws)})")
         if isinstance(st, ast.If) and "has_errors()" in txt:
